@@ -475,7 +475,7 @@ func (c *c16cfg) body(depth int) {
 
 func (c *c16cfg) build(tier int) func() *vs.Scenario {
 	return func() *vs.Scenario {
-		return &vs.Scenario{Name: c.name, Cfg: vs.Config{MaxSteps: 400000, Horizon: 120 * time.Second, DelayBounded: true}, Body: func() { c.body(c.depth[tier]) }}
+		return &vs.Scenario{Name: fmt.Sprintf("%s-depth%d", c.name, c.depth[tier]), Cfg: vs.Config{MaxSteps: 400000, Horizon: 120 * time.Second, DelayBounded: true}, Body: func() { c.body(c.depth[tier]) }}
 	}
 }
 
@@ -498,7 +498,7 @@ func main() {
 	for _, c := range cfgs {
 		c := c
 		b := func(t int) vs.Bounds { return vs.Bounds{P: t, D: t, F: t, T: t} }
-		defs = append(defs, mcreport.Def{Name: c.name, Build: c.build(tier), Quick: b(c.t[0]), Thorough: b(c.t[1])})
+		defs = append(defs, mcreport.Def{Name: fmt.Sprintf("%s-depth%d", c.name, c.depth[tier]), Build: c.build(tier), Quick: b(c.t[0]), Thorough: b(c.t[1])})
 	}
 	mcreport.Main("C16", "model_checking",
 		"explicit enumeration of every event history up to the depth bound (3 quick, 4 thorough; each event a free choice point) over three alphabets - topology refreshes (add, remove, address change, new host id on an old address, invalid peer row, duplicate row), status events for known and unknown addresses, control-connection loss and refresh failure - each with a query; after every event the system settles for 4s of virtual time under the default schedule and the ring indexes, pools, host states and offered hosts are compared with a reference model; one alphabet is additionally explored with schedule/timer deviations",
